@@ -138,6 +138,7 @@ def do_edit(rng, mid):
                       'track.swap', 'msg.time=', 'msg.attr=', 'track.setitem'] * 2
             names += ['msg.time=float', 'insert-realtime', 'fix-unstorable', 'fix-unstorable']
             names += ['append-same-object', 'track*2', 'track+track', 'append-same-object']
+        names += ['track+=', 'track+=', 'append-after-end_of_track']
     if rng.random() < 0.03:
         names = ['tracks.clear']
     e = rng.choice(names)
@@ -213,6 +214,19 @@ def do_edit(rng, mid):
             m.data += (1,)
         elif m.type == 'set_tempo':
             m.tempo = rng.randrange(1, 2 ** 24)
+    elif e == 'track+=':
+        # augmented assignment through a reference to the track: list semantics, the file sees it
+        t = rng.choice(tracks)
+        ident, before = id(t), len(t)
+        new = [rand_msg(rng), rand_msg(rng)]
+        t += new
+        holder = next(x for x in tracks if id(x) == ident)
+        if not (len(holder) == before + 2 and holder[-1] is new[-1]):
+            return 'track+= HAD NO EFFECT ON THE FILE'
+    elif e == 'append-after-end_of_track':
+        t = rng.choice(tracks)
+        t.append(MetaMessage('end_of_track', time=rng.choice((0, 3))))
+        t.append(rand_msg(rng))
     elif e == 'append-same-object':
         tr = rng.choice(ne)
         tr.append(rng.choice(tr))                 # the same Message object twice in the track
@@ -255,6 +269,13 @@ def history(ctx, seed, maxsteps):
     for _ in range(rng.choice((0, 1, 1, 2, 3))):
         mid.tracks.append(rand_track(rng))
     log = []
+    if rng.random() < 0.3 and (mid.type != 0 or len(mid.tracks) == 1):
+        # start from a file that was LOADED (whatever the reader remembers about a track must not
+        # outlive an edit of that track)
+        buf = io.BytesIO()
+        mid.save(file=buf)
+        mid = MidiFile(file=io.BytesIO(buf.getvalue()))
+        log.append('start:loaded-from-bytes')
     observed = False
     edited_after_obs = False
     nontrivial = False
@@ -265,6 +286,7 @@ def history(ctx, seed, maxsteps):
         if r < 0.45:
             what = do_edit(rng, mid)
             log.append('edit:' + what)
+            ctx.check('edit took effect', 'NO EFFECT' not in what, 'edit-without-effect', case, lambda: log[-3:])
             if observed:
                 edited_after_obs = True
         elif r < 0.55:
